@@ -1,6 +1,6 @@
 \* step-level pass C (hook H3): every recorded event is the model action of that thread, with the recorded effect
-CONSTANT Threads <- HThreads
-CONSTANT Keys <- HKeys
+CONSTANT Threads = {"t1", "t2", "t3", "t4"}
+CONSTANT Keys <- TKeys
 CONSTANT CvKeys = {}
 CONSTANT RevKeys = {}
 CONSTANT DocOf <- HDocOf
@@ -14,7 +14,7 @@ CONSTANT MaxOps = 1000000
 CONSTANT MaxSteps = 1000000
 CONSTANT SplitLoad = FALSE
 CONSTANT MaxUpd = 1000000
-CONSTANT Pool <- HPool
+CONSTANT Pool = 10
 CONSTANT SeqPrefix = 0
 CONSTRAINT Progress
 POSTCONDITION Accept
